@@ -424,6 +424,12 @@ class _Exporter:
         The graph may be the main graph (of a model) or a subgraph (of a Loop or If node).
         """
         code = []
+        # Names read in this graph: by its nodes (and their subgraphs) and as its outputs.
+        # A sibling graph (the other branch of an If, another Loop body) may spell one of
+        # its own values the same; that is a different value, not a reader of this one.
+        outer_names_read = self._names_read
+        self._names_read = {x.name for x in graph.output}
+        _update_names_read(self._names_read, graph.node)
         if hasattr(graph, "initializer"):
             for init in graph.initializer:
                 if self.skip_initializers:
@@ -457,6 +463,7 @@ class _Exporter:
                     pynode += f"  # {node.name}"
                 code.append(pynode)
 
+        self._names_read = outer_names_read
         final = "\n".join(code)
         return final
 
